@@ -160,17 +160,24 @@ def run_one(job):
         with open(os.path.join(d, 'repo', rel), 'w') as fd:
             fd.write(text)
         env = dict(os.environ, PYTHONPATH=os.path.join(d, 'repo', 'src'))
-        p = subprocess.run(['/venv/bin/python', '-m', 'pytest', '-q', '-x', '-p', 'no:cacheprovider', 'src/calmjs/parse/tests'],
-                           cwd=os.path.join(d, 'repo'), env=env, stdout=subprocess.PIPE, stderr=subprocess.STDOUT, universal_newlines=True, timeout=600)
-        survived = p.returncode == 0
+        try:
+            p = subprocess.run(['/venv/bin/python', '-m', 'pytest', '-q', '-x', '-p', 'no:cacheprovider', 'src/calmjs/parse/tests'],
+                               cwd=os.path.join(d, 'repo'), env=env, stdout=subprocess.PIPE, stderr=subprocess.STDOUT, universal_newlines=True, timeout=300)
+            survived = p.returncode == 0
+        except subprocess.TimeoutExpired:
+            survived = False           # the suite hangs: noticed
         rec = dict(file=rel, line=lineno, mutation=label, survived=survived, text=src.split('\n')[lineno - 1].strip()[:100])
         if not survived or only_surv:
             return rec
         rec['checks'] = {}
         for c in checks:
             env2 = dict(os.environ, VERIF_REPO=os.path.join(d, 'repo'), VERIF_OUT=os.path.join(d, 'out'), VERIF_E1_WORKERS='2')
-            q = subprocess.run([os.path.join(VERIF, 'check'), c, '--tier', 'quick'], cwd=VERIF, env=env2, stdout=subprocess.PIPE, stderr=subprocess.STDOUT,
-                               universal_newlines=True, timeout=1800)
+            try:
+                q = subprocess.run([os.path.join(VERIF, 'check'), c, '--tier', 'quick'], cwd=VERIF, env=env2, stdout=subprocess.PIPE, stderr=subprocess.STDOUT,
+                                   universal_newlines=True, timeout=1800)
+            except subprocess.TimeoutExpired:
+                rec['checks'][c] = dict(exit='timeout', first='', degraded='check did not finish in 1800 s')
+                continue
             first = [l for l in q.stdout.split('\n') if l.startswith('VIOLATION')][:1]
             deg = [l for l in q.stdout.split('\n') if l.startswith('DEGRADED') or l.startswith('CHECKER-ERROR')][:1]
             rec['checks'][c] = dict(exit=q.returncode, first=(first[0].split('replays/')[-1][:120] if first else ''), degraded=(deg[0][:160] if deg else ''))
